@@ -118,7 +118,14 @@ int main(int argc, char **argv) {
     simrt::fatal_install();
     std::string cmd = argv[1];
     uint64_t base = std::strtoull(arg(argc, argv, "--seed", "1"), nullptr, 10);
-    for (uint64_t w = 0; w < 20; w++) (void)run_plan(gen_plan(run_seed(99, w)), nullptr, nullptr);      // warm-up (lazy libstdc++ initialisation)
+    {   // warm-up (lazy libstdc++ / stdio initialisation) without any library-under-test code
+        simrt::SutScope sut;
+        std::ostringstream os; os << 1.5 << "x" << 42; std::wostringstream ws; ws << L"w" << 7;
+        std::istringstream is("tok en"); std::string t; is >> t; std::wistringstream wis(L"tok en"); std::wstring wt; wis >> wt;
+        try { throw std::runtime_error("warm-up"); } catch (const std::exception &) { }
+        char b[64]; std::snprintf(b, sizeof b, "%g %e %f", 1.5, 2.5, 3.5);
+        FILE *f = fopen("/dev/null", "w"); if (f) { fputc('x', f); fwrite("ab", 1, 2, f); fclose(f); }
+    }
 
     if (cmd == "batch") {
         uint64_t start = std::strtoull(arg(argc, argv, "--start", "0"), nullptr, 10), count = std::strtoull(arg(argc, argv, "--count", "1000"), nullptr, 10);
@@ -130,6 +137,7 @@ int main(int argc, char **argv) {
         for (uint64_t n = 0; n < count; n++) {
             uint64_t i = start + n * stride, rs = run_seed(base, i);
             Plan p = gen_plan(rs);
+            C::g_index = i;
             std::vector<uint64_t> pairs;
             RunResult rr = run_plan(p, &st, &pairs);
             ++runs; if (rr.nontrivial) ++nt;
